@@ -212,10 +212,28 @@ type Row struct {
 }
 
 type Cond struct {
-	Kind string `json:"kind"` // all | mod | gt | none
+	Kind string `json:"kind"` // all | mod | gt | none | and
 	A    int64  `json:"a,omitempty"`
 	B    int64  `json:"b,omitempty"`
 	As   string `json:"as,omitempty"` // inline | scope
+	L    *Cond  `json:"l,omitempty"`  // and: both hold (own conditions AND the all-associations ones)
+	R    *Cond  `json:"r,omitempty"`
+}
+
+func condAnd(a, b Cond) Cond {
+	if a.Kind == "all" || a.Kind == "" {
+		return b
+	}
+	if b.Kind == "all" || b.Kind == "" {
+		return a
+	}
+	return Cond{Kind: "and", L: &a, R: &b}
+}
+
+// Reload: the SAME destination is loaded a second time after the stored state changed.
+type Reload struct {
+	SoftDelete []int64 `json:"soft_delete"` // uids of rows of the relation's child table soft-deleted between the loads
+	Cond       Cond    `json:"cond"`        // conditions of the second load
 }
 
 type Input struct {
@@ -223,7 +241,12 @@ type Input struct {
 	Rel      string           `json:"rel"`
 	Mode     string           `json:"mode"` // preload | joins | assoc
 	Nested   string           `json:"nested,omitempty"`
-	Nested2  string           `json:"nested2,omitempty"` // third segment of the path Rel.Nested.Nested2
+	Nested2  string           `json:"nested2,omitempty"`      // third segment of the path Rel.Nested.Nested2
+	Both     bool             `json:"both,omitempty"`         // Preload(Rel, Cond) AND Preload(clause.Associations, CondAll) in one query
+	CondAll  Cond             `json:"cond_all"`               // conditions / scope given with clause.Associations (Both)
+	AllUnsc  bool             `json:"all_unscoped,omitempty"` // the all-associations scope also calls Unscoped()
+	AllFirst bool             `json:"all_first,omitempty"`    // order of the two Preload calls
+	Reload   *Reload          `json:"reload,omitempty"`
 	AllAssoc bool             `json:"all_assoc,omitempty"`
 	Cond     Cond             `json:"cond"`
 	Cond2    Cond             `json:"cond2"`
@@ -415,6 +438,8 @@ func gCond(c Cond) string {
 		return lib.App("CGt", lib.Z(c.A))
 	case "none":
 		return "CNone"
+	case "and":
+		return lib.App("CAnd", gCond(*c.L), gCond(*c.R))
 	}
 	return "CAll"
 }
@@ -704,66 +729,102 @@ func (e *Env) run(in Input) []Obs {
 	default:
 		dest = reflect.New(reflect.SliceOf(pt))
 	}
-	tx := db.Session(&gorm.Session{})
-	if in.Unscoped {
-		tx = tx.Unscoped()
-	}
-	if in.Dup && in.Shape != "struct" && in.Mode == "preload" {
-		tx = tx.Joins("JOIN (SELECT 1 AS dupn UNION ALL SELECT 2) AS dupt")
-	}
-	if in.Subset != nil {
-		tx = tx.Where(ptbl+".uid IN ?", in.Subset)
-	}
 	rel := rels[in.Rel]
-	hop1 := Hop{Single: rel.Single, Cond: in.Cond, Unscoped: in.Unscoped, Poly: rel.Poly}
+	cond1 := in.Cond // conditions of the load that is observed (the second one when reloading)
 	var obsRels []string
-	switch in.Mode {
-	case "preload":
-		if in.AllAssoc {
-			tx = tx.Preload(clause.Associations, condArgs(in.Cond)...)
-			obsRels = f.relNamesOnP()
-		} else {
-			if in.Nested == "" || in.Cond.Kind != "all" {
-				tx = tx.Preload(rel.Name, condArgs(in.Cond)...)
+	var tx *gorm.DB
+	build := func() {
+		tx = db.Session(&gorm.Session{})
+		if in.Unscoped {
+			tx = tx.Unscoped()
+		}
+		if in.Dup && in.Shape != "struct" && in.Mode == "preload" {
+			tx = tx.Joins("JOIN (SELECT 1 AS dupn UNION ALL SELECT 2) AS dupt")
+		}
+		if in.Subset != nil {
+			tx = tx.Where(ptbl+".uid IN ?", in.Subset)
+		}
+		allArgs := func() []interface{} { // Preload(clause.Associations, scope)
+			ca := in.CondAll
+			return []interface{}{func(d *gorm.DB) *gorm.DB {
+				if a := condArgs(Cond{Kind: ca.Kind, A: ca.A, B: ca.B, As: "inline"}); len(a) > 0 {
+					d = d.Where(a[0], a[1:]...)
+				}
+				if in.AllUnsc {
+					d = d.Unscoped()
+				}
+				return d
+			}}
+		}
+		switch in.Mode {
+		case "preload":
+			if in.AllAssoc {
+				tx = tx.Preload(clause.Associations, condArgs(cond1)...)
+				obsRels = f.relNamesOnP()
+			} else if in.Both {
+				if in.AllFirst {
+					tx = tx.Preload(clause.Associations, allArgs()...).Preload(rel.Name, condArgs(cond1)...)
+				} else {
+					tx = tx.Preload(rel.Name, condArgs(cond1)...).Preload(clause.Associations, allArgs()...)
+				}
+				obsRels = f.relNamesOnP()
+			} else {
+				if in.Nested == "" || cond1.Kind != "all" {
+					tx = tx.Preload(rel.Name, condArgs(cond1)...)
+				}
+				obsRels = []string{rel.Name}
+			}
+			if in.Nested != "" {
+				tx = tx.Preload(nestedPath(in), condArgs(in.Cond2)...)
+			}
+		case "joins":
+			// ON conditions are passed as a *gorm.DB (Joins("Rel", db.Where(...))); the joined table's
+			// alias is the relation name
+			var jargs []interface{}
+			switch cond1.Kind {
+			case "mod":
+				jargs = append(jargs, db.Where(rel.Name+".v % ? = ?", cond1.A, cond1.B))
+			case "gt":
+				jargs = append(jargs, db.Where(rel.Name+".v > ?", cond1.A))
+			case "none":
+				jargs = append(jargs, db.Where("1 = 0"))
+			}
+			if in.Inner {
+				tx = tx.InnerJoins(rel.Name, jargs...)
+			} else {
+				tx = tx.Joins(rel.Name, jargs...)
+			}
+			if in.Nested != "" {
+				tx = tx.Preload(nestedPath(in), condArgs(in.Cond2)...)
 			}
 			obsRels = []string{rel.Name}
+		case "assoc":
+			obsRels = []string{rel.Name}
 		}
-		if in.Nested != "" {
-			tx = tx.Preload(nestedPath(in), condArgs(in.Cond2)...)
+	} // build
+	loadDest := func() error {
+		build()
+		if in.Shape == "struct" {
+			return tx.Take(dest.Interface()).Error
 		}
-	case "joins":
-		// ON conditions are passed as a *gorm.DB (Joins("Rel", db.Where(...))); the joined table's
-		// alias is the relation name
-		var jargs []interface{}
-		switch in.Cond.Kind {
-		case "mod":
-			jargs = append(jargs, db.Where(rel.Name+".v % ? = ?", in.Cond.A, in.Cond.B))
-		case "gt":
-			jargs = append(jargs, db.Where(rel.Name+".v > ?", in.Cond.A))
-		case "none":
-			jargs = append(jargs, db.Where("1 = 0"))
-		}
-		if in.Inner {
-			tx = tx.InnerJoins(rel.Name, jargs...)
-		} else {
-			tx = tx.Joins(rel.Name, jargs...)
-		}
-		if in.Nested != "" {
-			tx = tx.Preload(nestedPath(in), condArgs(in.Cond2)...)
-		}
-		obsRels = []string{rel.Name}
-	case "assoc":
-		obsRels = []string{rel.Name}
+		return tx.Find(dest.Interface()).Error
 	}
-	var err error
-	if in.Shape == "struct" {
-		err = tx.Take(dest.Interface()).Error
+	err := loadDest()
+	if errors.Is(err, gorm.ErrRecordNotFound) {
+		return nil
+	}
+	if in.Reload != nil && err == nil {
+		// the usual "reload": the stored state changes, then the SAME destination is loaded again
+		if len(in.Reload.SoftDelete) > 0 {
+			lib.Must(db.Exec("UPDATE "+f.table(db, rel.Child)+" SET deleted_at = ? WHERE uid IN ?", delStamp, in.Reload.SoftDelete).Error)
+		}
+		cond1 = in.Reload.Cond
+		err = loadDest()
 		if errors.Is(err, gorm.ErrRecordNotFound) {
 			return nil
 		}
-	} else {
-		err = tx.Find(dest.Interface()).Error
 	}
+	hop1 := Hop{Single: rel.Single, Cond: cond1, Unscoped: in.Unscoped, Poly: rel.Poly}
 	code, etext := errCode(err)
 	ps := parentObjs(dest, in.Shape)
 
@@ -777,7 +838,7 @@ func (e *Env) run(in Input) []Obs {
 		}
 		var aerr error
 		if code == 0 {
-			aerr = adb.Model(dest.Interface()).Association(rel.Name).Find(res.Interface(), condArgs(in.Cond)...)
+			aerr = adb.Model(dest.Interface()).Association(rel.Name).Find(res.Interface(), condArgs(cond1)...)
 		}
 		ids := []int64{}
 		for i := 0; i < res.Elem().Len(); i++ {
@@ -807,7 +868,15 @@ func (e *Env) run(in Input) []Obs {
 	for _, rn := range obsRels {
 		r := rels[rn]
 		o := Obs{Rel: rn, Mode: "MPreload", M2M: r.M2M, Err: code, ErrText: etext,
-			hop: Hop{Single: r.Single, Cond: in.Cond, Unscoped: in.Unscoped, Poly: r.Poly}, hop2: Hop{Cond: Cond{Kind: "all"}}}
+			hop: Hop{Single: r.Single, Cond: cond1, Unscoped: in.Unscoped, Poly: r.Poly}, hop2: Hop{Cond: Cond{Kind: "all"}}}
+		if in.Both { // the relation's own conditions AND the all-associations ones; the scope may unscope
+			if rn == rel.Name {
+				o.hop.Cond = condAnd(cond1, in.CondAll)
+			} else {
+				o.hop.Cond = in.CondAll
+			}
+			o.hop.Unscoped = in.Unscoped || in.AllUnsc
+		}
 		if in.Mode == "joins" {
 			o.Mode = "MJoins"
 		}
@@ -1221,6 +1290,26 @@ func genInput(r *lib.Rng, edge bool) Input {
 			}
 		}
 	}
+	in.CondAll = Cond{Kind: "all"}
+	if in.Mode == "preload" && in.Nested == "" && !in.AllAssoc {
+		switch x := r.Intn(6); {
+		case x == 0:
+			// the relation's own conditions AND conditions / a scope for all associations, one query
+			in.Both = true
+			in.CondAll = genCond()
+			in.AllUnsc = r.Chance(1, 3)
+			in.AllFirst = r.Bool()
+			for tries := 0; in.Cond.Kind == "all" && tries < 3; tries++ {
+				in.Cond = genCond()
+			}
+		case x == 1:
+			// reload into the same destination after rows were soft-deleted / with other conditions
+			in.Reload = &Reload{Cond: genCond()}
+			if r.Bool() {
+				in.Shape = "struct"
+			}
+		}
+	}
 	if in.Mode == "assoc" && in.Cond.As == "scope" {
 		in.Cond.As = "inline" // Find(out, conds...) takes inline conditions
 	}
@@ -1383,6 +1472,13 @@ func genInput(r *lib.Rng, edge bool) Input {
 		setKey(&row, tags.JOwner, l)
 		setKey(&row, tags.JTag, g)
 		in.Tables["J"] = append(in.Tables["J"], row)
+	}
+	if in.Reload != nil {
+		for _, row := range in.Tables[rel.Child] {
+			if !row.Del && r.Chance(1, 2) {
+				in.Reload.SoftDelete = append(in.Reload.SoftDelete, *row.F["UID"].I)
+			}
+		}
 	}
 	// parent selection
 	var live []int64
@@ -1610,6 +1706,79 @@ func targetedInputs() []Input {
 		}
 		out = append(out, Input{Fam: fam, Rel: "Cover", Mode: "joins", Shape: "slice", Cond: all, Cond2: all, Tables: tables})
 	}
+	// (e) one query with Preload(Rel, own conditions) AND Preload(clause.Associations, scope), in both
+	//     orders, the scope filtering by v and / or calling Unscoped(); (f) the SAME destination loaded
+	//     again after children were soft-deleted or with conditions the attached row fails
+	for _, fam := range []string{"I", "C"} {
+		f := fams[fam]
+		key := func(i int) []Val {
+			t := make([]Val, len(f.Types))
+			for j, ty := range f.Types {
+				if ty == "str" {
+					t[j] = VS(fmt.Sprint("e", i, j))
+				} else {
+					t[j] = VI(int64(i + 1))
+				}
+			}
+			return t
+		}
+		null := make([]Val, len(f.Parts))
+		for i := range null {
+			null[i] = VNull
+		}
+		var ps, ms, os, ts []Row
+		for i := 0; i < 3; i++ {
+			p := Row{F: map[string]Val{"UID": VI(int64(101 + i)), "V": VI(int64(i + 1))}}
+			setKey(&p, f.Parts, key(i))
+			setKey(&p, pre("T", f.Parts), key(10+i))
+			setKey(&p, pre("B", f.Parts), null)
+			if i > 0 {
+				setKey(&p, pre("B", f.Parts), key(0))
+			}
+			ps = append(ps, p)
+			for j := 0; j < 4; j++ { // v = 1..4, the row with v = 3 soft-deleted
+				id := int64(201 + 10*i + j)
+				m := Row{F: map[string]Val{"UID": VI(id), "ID": VI(id), "V": VI(int64(j + 1))}, Del: j == 2}
+				setKey(&m, pre("P", f.Parts), key(i))
+				ms = append(ms, m)
+			}
+			o := Row{F: map[string]Val{"UID": VI(int64(301 + i)), "ID": VI(int64(301 + i)), "V": VI(int64(2 + i))}}
+			setKey(&o, pre("P", f.Parts), key(i))
+			os = append(os, o)
+			t := Row{F: map[string]Val{"UID": VI(int64(401 + i)), "V": VI(int64(2 + i))}}
+			setKey(&t, f.Parts, key(10+i))
+			ts = append(ts, t)
+		}
+		tables := map[string][]Row{"P": ps, "M": ms, "O": os, "T": ts}
+		gt1 := Cond{Kind: "gt", A: 1, As: "scope"}
+		gt1i := Cond{Kind: "gt", A: 1, As: "inline"}
+		even := Cond{Kind: "mod", A: 2, B: 0}
+		all := Cond{Kind: "all"}
+		for _, rel := range []string{"Many", "One", "Target", "Boss", "Team"} {
+			for _, sh := range []string{"struct", "slice", "ptrs"} {
+				var sub []int64
+				if sh == "struct" {
+					sub = []int64{102}
+				}
+				for _, first := range []bool{false, true} {
+					out = append(out,
+						Input{Fam: fam, Rel: rel, Mode: "preload", Shape: sh, Subset: sub, Both: true, AllFirst: first, Cond: gt1, CondAll: even, Cond2: all, Tables: tables},
+						Input{Fam: fam, Rel: rel, Mode: "preload", Shape: sh, Subset: sub, Both: true, AllFirst: first, Cond: gt1i, CondAll: all, AllUnsc: true, Cond2: all, Tables: tables},
+						Input{Fam: fam, Rel: rel, Mode: "preload", Shape: sh, Subset: sub, Both: true, AllFirst: first, Cond: all, CondAll: even, AllUnsc: true, Cond2: all, Tables: tables})
+				}
+			}
+		}
+		for _, sh := range []string{"struct", "slice", "ptrs"} {
+			sub := []int64{102}
+			out = append(out,
+				Input{Fam: fam, Rel: "One", Mode: "preload", Shape: sh, Subset: sub, Cond: all, Cond2: all, Tables: tables, Reload: &Reload{SoftDelete: []int64{302}, Cond: all}},
+				Input{Fam: fam, Rel: "One", Mode: "preload", Shape: sh, Subset: sub, Cond: all, Cond2: all, Tables: tables, Reload: &Reload{Cond: Cond{Kind: "gt", A: 8, As: "inline"}}},
+				Input{Fam: fam, Rel: "Target", Mode: "preload", Shape: sh, Subset: sub, Cond: all, Cond2: all, Tables: tables, Reload: &Reload{SoftDelete: []int64{402}, Cond: all}},
+				Input{Fam: fam, Rel: "Target", Mode: "preload", Shape: sh, Subset: sub, Cond: all, Cond2: all, Tables: tables, Reload: &Reload{Cond: Cond{Kind: "none", As: "scope"}}},
+				Input{Fam: fam, Rel: "Boss", Mode: "preload", Shape: sh, Subset: sub, Cond: all, Cond2: all, Tables: tables, Reload: &Reload{Cond: Cond{Kind: "gt", A: 8, As: "scope"}}},
+				Input{Fam: fam, Rel: "Many", Mode: "preload", Shape: sh, Subset: sub, Cond: all, Cond2: all, Tables: tables, Reload: &Reload{SoftDelete: []int64{211, 212}, Cond: gt1}})
+		}
+	}
 	return out
 }
 
@@ -1678,7 +1847,7 @@ func shapeOf(in Input) string {
 	fl := []byte(flags)
 	sort.Slice(fl, func(i, j int) bool { return fl[i] < fl[j] })
 	return fmt.Sprintf("%s.%s|%s|inner=%v|n=%s|all=%v|c=%s%s,%s%s|u=%v|%s|dup=%v|sub=%d|P%d,O%d,M%d,T%d,G%d,N%d,J%d|%s",
-		in.Fam, in.Rel, in.Mode, in.Inner, in.Nested+"."+in.Nested2, in.AllAssoc, in.Cond.Kind, in.Cond.As, in.Cond2.Kind, in.Cond2.As, in.Unscoped,
+		in.Fam, in.Rel, in.Mode, in.Inner, in.Nested+"."+in.Nested2+fmt.Sprint("|both=", in.Both, in.CondAll.Kind, in.AllUnsc, in.AllFirst, "|reload=", in.Reload != nil), in.AllAssoc, in.Cond.Kind, in.Cond.As, in.Cond2.Kind, in.Cond2.As, in.Unscoped,
 		in.Shape, in.Dup, len(in.Subset), n("P"), n("O"), n("M"), n("T"), n("G"), n("N"), n("J"), string(fl))
 }
 
@@ -1774,6 +1943,6 @@ func main() {
 		}
 		add(kind, in)
 	}
-	out.Extra["rule"] = "cases = data graph over one of 5 key signatures (uint, string, (string,string), (int64,string), (string,int64)) x relation {has_one, has_many, belongs_to, many2many, polymorphic, self belongs_to, self has_many} x {Preload single / nested / clause.Associations / with inline or scope conditions, association Joins / InnerJoins without and with ON conditions passed as *gorm.DB (+nested preload below the join), Association().Find} x Unscoped x parent shape {struct, slice, slice of pointers} x duplicated parents; key strings include separators, the text nil and the empty string, numeric key parts include 0 (also as the LAST part of a composite key of a struct-shaped parent: deterministic 'targeted' stream in every tier), foreign keys include NULL and partly NULL tuples, children include soft-deleted rows; the inputs of the four defects fixed in /repo (separator / nil / zero key collisions, empty composite IN) are replayed from corpus/C11 first and occur in the random streams and the sweep like any other input; distinct = distinct (family, relation, mode, path, conditions, shape, table sizes, flags) shapes; non-trivial = at least one child attached and either two parents with different non-empty attachments or a child row of the table attached to nobody"
+	out.Extra["rule"] = "cases = data graph over one of 5 key signatures (uint, string, (string,string), (int64,string), (string,int64)) x relation {has_one, has_many, belongs_to, many2many, polymorphic, self belongs_to, self has_many} x {Preload single / nested / clause.Associations / with inline or scope conditions / a named preload with its own conditions combined with clause.Associations carrying conditions or an Unscoped scope (both orders) / the same destination loaded again after rows were soft-deleted or with other conditions, association Joins / InnerJoins without and with ON conditions passed as *gorm.DB (+nested preload below the join), Association().Find} x Unscoped x parent shape {struct, slice, slice of pointers} x duplicated parents; key strings include separators, the text nil and the empty string, numeric key parts include 0 (also as the LAST part of a composite key of a struct-shaped parent: deterministic 'targeted' stream in every tier), foreign keys include NULL and partly NULL tuples, children include soft-deleted rows; the inputs of the four defects fixed in /repo (separator / nil / zero key collisions, empty composite IN) are replayed from corpus/C11 first and occur in the random streams and the sweep like any other input; distinct = distinct (family, relation, mode, path, conditions, shape, table sizes, flags) shapes; non-trivial = at least one child attached and either two parents with different non-empty attachments or a child row of the table attached to nobody"
 	lib.Must(out.Flush())
 }
